@@ -42,6 +42,12 @@ CHECKS = {
  "C10": ("exploration", "A", "deterministic simulation: report as a faulted stream between two real processes (every cut offset, chunked delivery, writer ENOSPC/EIO/kill), paths observed at the seam",
          "Round trip observed through the raw paths the reader stats and through text-vs-JSON equivalence of effects on hostile-name worlds; exhaustive cut offsets of scenario text reports (JSON sampled); chunked stdin; failing/killed report writer.",
          "codec coverage limited to the generator's name alphabets (no bounded-exhaustive string enumeration: not this technique); serial reader", "4/C10"),
+ "C11": ("exploration", "A", "deterministic simulation: dry-run script executed/tokenised by real bash vs seam trace and final tree of the real run; pool sizes 1/2/16 with seeded delays",
+         "Seeded worlds (shell-hostile names) x 5 operations x options: bash-run tree == real-run tree (remove/link/soft link), script operations == traced operations (all five), summaries equal, groups in report order, script independent of the pool size.",
+         "bash as reference shell; temp suffixes masked; move/dedupe compared at operation level only", "4/C11"),
+ "C12": ("exploration", "A", "deterministic simulation: multi-run histories on a simulated clock with a persistent private cache, inode reuse by seam relabelling, earlier run killed inside the cache directory",
+         "Seeded histories of length 1..6 (edits x per-step configuration); after every step the cached report body must equal the uncached twin's and the cached run must exit 0; ~20% of histories kill one run at a write/pwrite/fsync/open in the cache directory.",
+         "every content change moves mtime(ms) or length; sled runs as real code, its internal threads are not scheduled", "4/C12"),
 }
 NOT_APPLICABLE = {
  "C16": "pure function of (glob pattern, string): no schedule, clock, fault, stream or history for a simulator to control; needs bounded-exhaustive input enumeration against a reference matcher, which is a different technique (DESIGN section 5)",
